@@ -3,7 +3,8 @@ open IQE.Props.C26
 #print axioms C26_rank
 #print axioms C26_cume_dist
 #print axioms C26_percent_rank
-#print axioms C26_dense_rank_partial
+#print axioms C26_dense_rank
+#print axioms C26_distinctKeys_is_distinctBy
 #print axioms C26_peerEq_is_tie
 #print axioms C26_row_number
 #print axioms C26_frame_rows
